@@ -84,7 +84,8 @@ def _dataclass_parameters(class_: Class) -> list[Parameter]:
     # Iterate on current attributes to find parameters.
     parameters = []
     for member in class_.members.values():
-        if member.is_attribute:
+        # Names imported in the class body are not fields (and may be unresolvable).
+        if not member.is_alias and member.is_attribute:
             member = cast("Attribute", member)
 
             # All dataclass parameters have annotations.
